@@ -60,6 +60,19 @@ struct Top_ : state_machine_def<Top_> {
 };
 typedef BE<Top_> Top;
 
+// a behaviour INSIDE a completion chain submits an event: the chain runs to its end first (C10), the event is handled by the state the
+// chain ends in (S3), never dispatched against a state that is being left
+struct ping {};
+struct CC_ : state_machine_def<CC_> {
+  struct S0 : state<> {}; struct S1 : state<> {};
+  struct S2 : state<> { template<class E,class F> void on_entry(E const&,F& f){ g_log += "S2.entry{ "; f.process_event(ping()); g_log += "} "; } };
+  struct S3 : state<> { template<class E,class F> void on_entry(E const&,F&){ g_log += "S3.entry "; } };
+  struct S4 : state<> { template<class E,class F> void on_entry(E const&,F&){ g_log += "S4.entry "; } };
+  typedef S0 initial_state;
+  struct transition_table : mpl::vector< Row<S0,go,S1,none,none>, Row<S1,none,S2,none,none>, Row<S2,none,S3,none,none>, Row<S3,ping,S4,none,none> > {};
+  template<class F,class Ev> void no_transition(Ev const&,F&,int){ g_log += "NT "; }
+};
+typedef BE<CC_> CC;
 // exception_caught submits an event while the failing step already queued another one (C04: "from exception_caught"): both must wait
 // until the step is over and keep their submission order
 #include <stdexcept>
@@ -105,6 +118,8 @@ int main(int argc, char** argv) {
     report("sub-entry.completion-first", g_log == "I.entry{ } c l ", "C10,C04", "log=[" + g_log + "]"); }
   { Sub m; g_log.clear(); m.start();
     report("root-start.completion-first", g_log.find("c l") != std::string::npos && g_log.find("k") == std::string::npos, "C10", "log=[" + g_log + "]"); }
+  { CC m; m.start(); g_log.clear(); m.process_event(go());
+    report("completion-chain.event-raised-inside-waits-for-the-chain", g_log == "S2.entry{ } S3.entry S4.entry ", "C10,C04", "log=[" + g_log + "]"); }
   { XM m; m.start(); g_log.clear(); m.process_event(boom());
     report("submit.exception_caught", g_log == "action{ } caught{ } note1 note2 ", "C04,C12", "log=[" + g_log + "]"); }
   return finish();
